@@ -222,7 +222,7 @@ func c11Run(t *testing.T, tape *simrt.Tape, o simwork.Opts) *simwork.Result {
 
 // batchAnswerFn builds the scripted client's answers for cases with expected
 // payload "data-i".
-func batchAnswerFn(client *simClient, expected map[string]*conformancev1.ClientResponseResult, planOf func(name string) answerPlan) func(string, int) *conformancev1.ClientCompatResponse {
+func batchAnswerFn(client *simClient, expected map[string]*conformancev1.ClientResponseResult, planOf func(name string) answerPlan, serverGone func(name string) bool) func(string, int) *conformancev1.ClientCompatResponse {
 	return func(name string, serial int) *conformancev1.ClientCompatResponse {
 		exp := expected[name]
 		if exp == nil {
@@ -230,6 +230,10 @@ func batchAnswerFn(client *simClient, expected map[string]*conformancev1.ClientR
 		}
 		plan := planOf(name)
 		resp := &conformancev1.ClientCompatResponse{TestName: name}
+		if serverGone != nil && serverGone(name) && plan.Kind == akPass {
+			// no client gets the expected response out of a dead server
+			plan.Kind = akClientError
+		}
 		switch plan.Kind {
 		case akPass, akAssertFail:
 			r := &conformancev1.ClientResponseResult{}
@@ -251,6 +255,18 @@ func batchAnswerFn(client *simClient, expected map[string]*conformancev1.ClientR
 	}
 }
 
+// recordingRunner notes at which scheduler step each request was handed over.
+type recordingRunner struct {
+	clientRunner
+	sim   *simrt.Sim
+	enter map[string]int
+}
+
+func (r *recordingRunner) sendRequest(req *conformancev1.ClientCompatRequest, whenDone func(string, *conformancev1.ClientCompatResponse, error)) error {
+	r.enter[req.TestName] = r.sim.Steps()
+	return r.clientRunner.sendRequest(req, whenDone)
+}
+
 func c11Body(tape *simrt.Tape, o simwork.Opts, res *simwork.Result) {
 	cs := c11Gen(tape, o.Tier)
 	res.Sample = cs
@@ -269,8 +285,15 @@ func c11Body(tape *simrt.Tape, o simwork.Opts, res *simwork.Result) {
 	}
 	client := newSimClient(sim, cs.Client)
 	arrival := map[string]int{}
-	client.answerFn = batchAnswerFn(client, expected, func(name string) answerPlan { return client.planFor(arrival[name]) })
 	server := newSimServer(sim, 0, cs.Server)
+	goneAtAnswer := map[string]bool{}
+	client.answerFn = batchAnswerFn(client, expected, func(name string) answerPlan { return client.planFor(arrival[name]) },
+		func(name string) bool {
+			if server.exited {
+				goneAtAnswer[name] = true
+			}
+			return server.exited
+		})
 	client.onReceive = func(n int, req *conformancev1.ClientCompatRequest) {
 		arrival[req.TestName] = n - 1
 		if cs.Server.ExitAfterK >= 0 && n >= cs.Server.ExitAfterK {
@@ -295,6 +318,7 @@ func c11Body(tape *simrt.Tape, o simwork.Opts, res *simwork.Result) {
 
 	var (
 		runner          clientRunner
+		rec             *recordingRunner
 		startErr        error
 		returned        bool
 		returnedAt      time.Duration
@@ -305,7 +329,11 @@ func c11Body(tape *simrt.Tape, o simwork.Opts, res *simwork.Result) {
 	)
 	// invariant: an outcome, once recorded, is never replaced by a different one
 	seen := map[string]testOutcome{}
+	cancelStep := -1
 	sim.Invariant = func() string {
+		if cancelStep < 0 && server.ctx != nil && server.ctx.Err() != nil {
+			cancelStep = sim.Steps()
+		}
 		for name, oc := range results.outcomes {
 			prev, ok := seen[name]
 			if !ok {
@@ -331,8 +359,9 @@ func c11Body(tape *simrt.Tape, o simwork.Opts, res *simwork.Result) {
 			mainDone = true
 			return
 		}
+		rec = &recordingRunner{clientRunner: runner, sim: sim, enter: map[string]int{}}
 		runTestCasesForServer(ctx, cs.RefClient, cs.RefServer, meta, testCases, serverCreds, clientCreds,
-			server.starter(), logP, errP, results, runner, nil, cs.LogEach)
+			server.starter(), logP, errP, results, rec, nil, cs.LogEach)
 		returned = true
 		returnedAt = sim.Elapsed()
 		startedAtReturn = server.started
@@ -454,6 +483,9 @@ func c11Body(tape *simrt.Tape, o simwork.Opts, res *simwork.Result) {
 		switch {
 		case delivered[name]:
 			// answered: keeps its own verdict
+			if goneAtAnswer[name] && plan.Kind == akPass {
+				plan.Kind = akClientError
+			}
 			switch plan.Kind {
 			case akPass:
 				if oc.actualFailure != nil || oc.setupError {
@@ -511,6 +543,18 @@ func c11Body(tape *simrt.Tape, o simwork.Opts, res *simwork.Result) {
 		}
 	}
 
+	// ---- once the runner knows that the server is gone (its process context is
+	// cancelled) it hands no further request to the client. The check in the
+	// send loop and the hand-over happen within one scheduler step, so a
+	// request entered at a later step than the cancellation was sent knowingly.
+	if rec != nil && cancelStep >= 0 {
+		for name, st := range rec.enter {
+			if st > cancelStep+1 {
+				viol("c11/sent-after-server-death", "request %q was handed to the client at step %d although the server's process context was cancelled by step %d", name, st, cancelStep)
+			}
+		}
+	}
+
 	// ---- the server is asked to stop
 	if startedAtReturn && !exitedAtReturn && !abortedAtReturn {
 		viol("c11/server-not-stopped", "runTestCasesForServer returned while the server was running and its context was not cancelled")
@@ -564,7 +608,7 @@ func c11Body(tape *simrt.Tape, o simwork.Opts, res *simwork.Result) {
 	if cs.RefClient {
 		for name := range delivered {
 			plan := client.planFor(arrival[name])
-			if plan.Feedback && plan.Kind <= akAssertFail {
+			if plan.Feedback && plan.Kind <= akAssertFail && !(goneAtAnswer[name] && plan.Kind == akPass) {
 				if _, ok := results.serverSideband[name]; !ok {
 					viol("c11/client-feedback", "feedback of the reference client for %q was not recorded", name)
 				}
